@@ -32,3 +32,5 @@ m = dict(
     not_applicable=na)
 json.dump(m, open(os.path.join(ROOT, 'MANIFEST.json'), 'w'), indent=1)
 print('checks:', [c['property_id'] for c in checks], 'n/a:', len(na))
+import subprocess, sys
+subprocess.run([sys.executable, os.path.join(ROOT, 'tools', 'scan_assumptions.py')], check=False)
